@@ -63,8 +63,13 @@ func checkC12(c *core.Ctx) {
 		for i, k := range cs {
 			groups[1+i%2] = append(groups[1+i%2], fmt.Sprintf("S%d", k))
 		}
+		// long formats under a century split (it must not matter), and converters called in arbitrary date order
+		groups = append(groups, []string{"L60"}, []string{fmt.Sprintf("L%d", 2+rng.Intn(98)), fmt.Sprintf("J%d", c.Seed)})
 	} else {
-		groups = [][]string{{"L"}}
+		groups = [][]string{{"L"}, {"L1"}, {"L30"}, {"L60"}, {"L99"}, {"L100"}}
+		for k := int64(0); k < 6; k++ {
+			groups = append(groups, []string{fmt.Sprintf("J%d", c.Seed*10+k)})
+		}
 		var cur []string
 		for k := 0; k <= 100; k++ {
 			cur = append(cur, fmt.Sprintf("S%d", k))
